@@ -380,7 +380,7 @@ fn bgdeliver_worker(prop: &str, variant: &str, seed: u64, wid: u64, cases: u32, 
                    format!("no_flush_latency_us_p50_{}", variant): pct(0.5), format!("no_flush_latency_us_p99_{}", variant): pct(0.99), format!("no_flush_latency_us_max_{}", variant): pct(1.0)},
         "excluded": {}, "known_hits": {}, "samples": s.2,
         "records_delivered": s.5.len(), "ops_executed": 0, "ops_skipped": 0, "failure": failure,
-        "rule": "no further call needed: real set_reporter (Config::default(), or report_interval 25 ms), real background collector thread, 1-3 plain OS threads finish generated spans (whole traces, handed-off children, two-parent spans, local scopes) with generated pauses, half of them exit directly after their last finish; nobody calls flush(); oracle: every finished span is reported (once per parent) within 5 s (believed only when reproduced 3 of 3), never twice, nothing unknown; every case is non-trivial (>=1 span finished without a later call); distinct = hash of the case; latencies finish->report are reported as labels (microseconds), not judged",
+        "rule": "no further call needed: real set_reporter (Config::default(), or report_interval 25 ms), real background collector thread, 1-8 plain OS threads with staggered starts finish generated spans (whole traces, handed-off children, two-parent spans, local scopes, backlogs of thousands of commands; in_span futures created on the main thread and completed on the new thread as its first tracing activity - always for C13) with generated pauses, half of them exit directly after their last finish, a fifth of the cases beside a pool of 32-47 registered threads; nobody calls flush(); oracle: every finished span is reported (once per parent) within 5 s (believed only when reproduced 3 of 3), never twice, nothing unknown; every case is non-trivial (>=1 span finished without a later call); distinct = hash of the case; latencies finish->report are reported as labels (microseconds), not judged",
         "wall_s": start.elapsed().as_secs_f64(),
     });
     std::fs::File::create(out).unwrap().write_all(serde_json::to_string(&res).unwrap().as_bytes()).unwrap();
